@@ -2,7 +2,9 @@ import json
 
 import gen
 
-KEYS = ["a", "b", "id", "x y", "é", "zz", "_priv", "name"]
+# attribute names, including ones that are substrings / superstrings of the special names `children`, `name`, `parent`
+KEYS = ["a", "b", "id", "x y", "é", "zz", "_priv", "c", "n", "e", "child", "ren", "childre", "children_", "Children",
+        "nam", "names", "parent_", "k\ufeff", "name"]
 
 
 def rand_value(rng, depth=0):
@@ -10,7 +12,7 @@ def rand_value(rng, depth=0):
     if r < 0.25:
         return rng.randrange(-5, 100)
     if r < 0.4:
-        return rng.choice(["", "s", "line1\nline2", "tab\t", "quote\"q", "back\\slash", "é中", "\u0001ctl", "null"])
+        return rng.choice(["", "s", "line1\nline2", "tab\t", "quote\"q", "back\\slash", "é中", "\u0001ctl", "null", "a\ufeffb", "\ufeff", "ls\u2028ps\u2029", "\x7f\x00", "\U0001f600"])
     if r < 0.5:
         return rng.choice([None, True, False])
     if r < 0.6:
@@ -18,7 +20,7 @@ def rand_value(rng, depth=0):
     if depth < 2 and r < 0.8:
         return [rand_value(rng, depth + 1) for _ in range(rng.randrange(0, 3))]
     if depth < 2:
-        return {rng.choice(["k", "children", "m"]): rand_value(rng, depth + 1) for _ in range(rng.randrange(0, 3))}
+        return {rng.choice(["k", "children", "m", "k\ufeff", "name"]): rand_value(rng, depth + 1) for _ in range(rng.randrange(0, 3))}
     return 7
 
 
